@@ -228,19 +228,31 @@ theorem C04_unmatched_untouched {s : Storage} (cid : Bytes) (a : IP) (g : Settin
 
 /-! ### settings -/
 
-/-- The client's own filtering / safe-search / safe-browsing / parental
-settings are applied exactly when it uses its own settings, its own blocked
-services exactly when it uses its own blocked services; otherwise the global
-values stay. -/
+/-- The client's own filtering / safe-search (switch and engine) /
+safe-browsing / parental settings are applied exactly when it uses its own
+settings, its own blocked services exactly when it uses its own blocked
+services; otherwise the global values stay.  Name and tags always identify the
+client; nothing else is written. -/
 theorem C04_settings_opt_out (c : Client) (g : Settings) :
     (c.apply g).filteringEnabled = (if c.useOwnSettings then c.filteringEnabled else g.filteringEnabled) ∧
     (c.apply g).safeSearchEnabled = (if c.useOwnSettings then c.safeSearchEnabled else g.safeSearchEnabled) ∧
+    (c.apply g).clientSafeSearch = (if c.useOwnSettings then c.safeSearch else g.clientSafeSearch) ∧
     (c.apply g).safeBrowsingEnabled = (if c.useOwnSettings then c.safeBrowsingEnabled else g.safeBrowsingEnabled) ∧
     (c.apply g).parentalEnabled = (if c.useOwnSettings then c.parentalEnabled else g.parentalEnabled) ∧
     (c.apply g).svc = (if c.useOwnBlockedServices then c.svc else g.svc) ∧
-    (c.apply g).clientName = c.name := by
+    (c.apply g).clientName = c.name ∧ (c.apply g).clientTags = c.tags ∧
+    (c.apply g).protectionEnabled = g.protectionEnabled ∧ (c.apply g).untouched = g.untouched := by
   rw [Client.apply_eq]
   simp [effective]
+
+/-- A client that uses the global settings leaves every one of them alone, also
+when it has an own safe-search engine or own values stored. -/
+theorem C04_global_settings_kept (c : Client) (g : Settings) (h : c.useOwnSettings = false) :
+    (c.apply g).filteringEnabled = g.filteringEnabled ∧ (c.apply g).safeSearchEnabled = g.safeSearchEnabled ∧
+    (c.apply g).clientSafeSearch = g.clientSafeSearch ∧
+    (c.apply g).safeBrowsingEnabled = g.safeBrowsingEnabled ∧ (c.apply g).parentalEnabled = g.parentalEnabled := by
+  rw [Client.apply_eq]
+  simp [effective, h]
 
 /-! ### the sorted CIDR map -/
 
@@ -289,7 +301,7 @@ private def mk (uid : Nat) (name : Bytes) (ips : List IP) (subs : List Prefix) (
   { uid := uid, name := name, ips := ips, subnets := subs, macs := macs, cids := cids,
     invalidConf := false, useOwnSettings := own, filteringEnabled := false, safeSearchEnabled := true,
     safeBrowsingEnabled := false, parentalEnabled := true, useOwnBlockedServices := own, svc := uid,
-    ver := uid }
+    safeSearch := uid, tags := 1, ver := uid }
 
 /-- alice: 10.0.0.1 and 10.0.0.0/8; bob: 10.0.0.0/24 and ClientID "tv"; carol: a MAC. -/
 private def alice := mk 1 [97] [.v4 0x0a000001] [⟨false, 0x0a000000, 8⟩] [] [] true
@@ -315,6 +327,18 @@ example :
       = .none ∧
     (step s3 (.update [98] (mk 9 [98] [] [⟨false, 0x0a000000, 16⟩] [] [] true))).1.resolve [] (.v4 0x0a000007)
       = .client { mk 9 [98] [] [⟨false, 0x0a000000, 16⟩] [] [] true with uid := 2 } := by
+  decide +kernel
+
+/-- bob uses the global settings although he has an own safe-search engine and
+own values stored: a request attributed to him keeps every global setting;
+alice opts out and gets all of hers. -/
+example :
+    s3.applyClientFiltering [] (.v4 0x0a000007) globalSettings =
+      some { globalSettings with clientName := [98], clientTags := 1 } ∧
+    s3.applyClientFiltering [] (.v4 0x0a000001) globalSettings =
+      some { clientName := [97], clientTags := 1, svc := 1, filteringEnabled := false, safeSearchEnabled := true,
+             clientSafeSearch := 1, safeBrowsingEnabled := false, parentalEnabled := true,
+             protectionEnabled := true, untouched := true } := by
   decide +kernel
 
 end examples
